@@ -11,7 +11,9 @@ def fnv1a (s : String) : Nat :=
 
 /-- reflect name of the harness event type number `t` -/
 def goTypeName (t : Nat) : String :=
-  "main.T" ++ (if t < 10 then "0" else "") ++ toString t
+  if t == 40 then "json.RawMessage"       -- the event type that is a pre-encoded document
+  else if t == 41 then "*main.T41"        -- the event type published as a pointer
+  else "main.T" ++ (if t < 10 then "0" else "") ++ toString t
 
 def numShards : Nat := 32
 
